@@ -16,6 +16,7 @@ import (
 	"hash/crc32"
 	"math/rand"
 	"os"
+	"strings"
 	"testing"
 	"time"
 
@@ -146,6 +147,9 @@ func vC14ValidMessage(n int, shape string, rng *rand.Rand) []byte {
 		}
 		if rng.Intn(6) == 0 {
 			m.Offset = int64(rng.Intn(5)) - 1
+		}
+		if shape == "occ" {
+			m.Offset = -1 // no expected offset: storable on a stream with optimistic concurrency control
 		}
 		b, err := gproto.MarshalOptions{Deterministic: true}.Marshal(m)
 		if err != nil {
@@ -470,6 +474,60 @@ func vC14Internal(srv *Server, part *partition, stream, h string, shape int) (st
 	}
 }
 
+// vC14BuildPublish concretises one publish of a stimulus.  Shapes "hdrMany:<n>" are publish envelopes
+// marshalled by the protocol package itself with n header entries (the header count is a 16-bit field of
+// the stored record); for them the recorded abstract input carries the real length.
+func vC14BuildPublish(step map[string]interface{}, seed int64) (vC14Concrete, map[string]interface{}) {
+	im := step["i"].(map[string]interface{})
+	pbOK, id, shape := vBool(step, "pbOK"), int(vInt(step, "id")), vStrDef(step, "shape", "plain")
+	if strings.HasPrefix(shape, "hdrMany:") {
+		n := 0
+		fmt.Sscanf(shape, "hdrMany:%d", &n)
+		m := &client.Message{Value: []byte("many"), Headers: make(map[string][]byte, n)}
+		for j := 0; j < n; j++ {
+			m.Headers[fmt.Sprintf("h%05d", j)] = []byte{byte(j)}
+		}
+		data, err := proto.MarshalPublish(m)
+		if err != nil {
+			panic(err)
+		}
+		i2 := map[string]interface{}{"len": len(data), "magicOK": true, "verOK": true, "hl": 8, "crcFlag": false,
+			"otherFlags": false, "typeOK": true, "crcOK": true}
+		return vC14Concrete{data: data, payload: data[8:], ref: m}, map[string]interface{}{"i": i2, "pbOK": true, "id": id}
+	}
+	k := vC14Key{Len: int(vInt(im, "len")), MagicOK: vBool(im, "magicOK"), VerOK: vBool(im, "verOK"),
+		CrcFlag: vBool(im, "crcFlag"), OtherFlags: vBool(im, "otherFlags"), TypeOK: vBool(im, "typeOK"),
+		CrcOK: vBool(im, "crcOK")}
+	hl := int(vInt(im, "hl"))
+	c := vC14Concretise(k, hl, pbOK, shape, vC14Rng(seed, k, hl, pbOK, id))
+	return c, map[string]interface{}{"i": im, "pbOK": pbOK, "id": id}
+}
+
+// vC14NumericShapes: well-formed propagated operations whose numeric fields take boundary values
+// (negative, zero, minimum, maximum); the metadata leader must answer or drop them, not die.
+func vC14NumericShapes(name string) []*proto.PropagatedRequest {
+	cs := func(rf int32, id int32, n int) *proto.PropagatedRequest {
+		parts := []*proto.Partition{}
+		for j := 0; j < n; j++ {
+			parts = append(parts, &proto.Partition{Subject: name, Stream: name, Id: id, ReplicationFactor: rf})
+		}
+		return &proto.PropagatedRequest{Op: proto.Op_CREATE_STREAM,
+			CreateStreamOp: &proto.CreateStreamOp{Stream: &proto.Stream{Name: name, Subject: name, Partitions: parts}}}
+	}
+	const maxU = ^uint64(0)
+	return []*proto.PropagatedRequest{
+		cs(-2, 0, 1), cs(-2147483648, 0, 1), cs(2147483647, 0, 1), cs(0, 0, 1), cs(-3, -1, 2), cs(1, 0, 0),
+		{Op: proto.Op_SHRINK_ISR, ShrinkISROp: &proto.ShrinkISROp{Stream: name, Partition: -1, ReplicaToRemove: "x", Leader: "y", LeaderEpoch: maxU}},
+		{Op: proto.Op_EXPAND_ISR, ExpandISROp: &proto.ExpandISROp{Stream: name, Partition: 2147483647, ReplicaToAdd: "x", Leader: "y", LeaderEpoch: maxU}},
+		{Op: proto.Op_REPORT_LEADER, ReportLeaderOp: &proto.ReportLeaderOp{Stream: name, Partition: -2147483648, Replica: "x", Leader: "y", LeaderEpoch: maxU}},
+		{Op: proto.Op_PAUSE_STREAM, PauseStreamOp: &proto.PauseStreamOp{Stream: name, Partitions: []int32{-1, 2147483647}}},
+		{Op: proto.Op_RESUME_STREAM, ResumeStreamOp: &proto.ResumeStreamOp{Stream: name, Partitions: []int32{-2147483648}}},
+		{Op: proto.Op_SET_STREAM_READONLY, SetStreamReadonlyOp: &proto.SetStreamReadonlyOp{Stream: name, Partitions: []int32{-1}, Readonly: true}},
+		{Op: proto.Op_REPORT_CONSUMER_GROUP_COORDINATOR, ReportConsumerGroupCoordinatorOp: &proto.ReportConsumerGroupCoordinatorOp{GroupId: name, ConsumerId: "c", Coordinator: "z", Epoch: maxU}},
+		{Op: proto.Op(2147483647)},
+	}
+}
+
 type vC14Entry struct {
 	K  string `json:"k"`
 	ID int    `json:"id"`
@@ -541,15 +599,18 @@ func TestVerifC14Server(t *testing.T) {
 	sf := vLoadStimuli(t)
 	tw := vOpenTrace(t)
 	defer tw.Close()
+	emitted := 0 // lines of the current behaviour on disk
 	emit := func(ev interface{}) {
 		tw.Emit(ev)
 		tw.w.Flush()
+		emitted++
 	}
 	intentPath := os.Getenv("VERIF_INTENT")
-	intent := func(v interface{}) {
+	intent := func(v map[string]interface{}) {
 		if intentPath == "" {
 			return
 		}
+		v["lines"] = emitted
 		b, _ := json.Marshal(v)
 		os.WriteFile(intentPath, b, 0o644)
 	}
@@ -571,7 +632,11 @@ func TestVerifC14Server(t *testing.T) {
 	for _, b := range sf.Behaviours {
 		seed := vIntDef(b.Cfg, "seed", 1)
 		stream := fmt.Sprintf("c14-%d", b.ID)
-		if _, err := srv.api.CreateStream(context.Background(), &client.CreateStreamRequest{Name: stream, Subject: stream}); err != nil {
+		creq := &client.CreateStreamRequest{Name: stream, Subject: stream}
+		if vBool(b.Cfg, "occ") {
+			creq.OptimisticConcurrencyControl = &client.NullableBool{Value: true}
+		}
+		if _, err := srv.api.CreateStream(context.Background(), creq); err != nil {
 			t.Fatalf("INCONCLUSIVE: create stream: %v", err)
 		}
 		var part *partition
@@ -588,22 +653,60 @@ func TestVerifC14Server(t *testing.T) {
 			}
 			time.Sleep(time.Millisecond)
 		}
+		emitted = 0
 		emit(map[string]interface{}{"a": "Open", "t": b.ID, "st": map[string]interface{}{"up": true, "stored": []vC14Entry{}},
 			"obs": map[string]interface{}{"a": "Open"}})
 		pubs := []vC14Pub{}
 		for sn, step := range b.Steps {
 			switch vStr(step, "a") {
+			case "Burst":
+				// several NATS messages arrive back to back (nothing waits for the previous one to be stored)
+				items := vList(step, "pubs")
+				base := len(pubs)
+				argsOf := []map[string]interface{}{}
+				for _, it := range items {
+					c, args := vC14BuildPublish(it, seed)
+					pubs = append(pubs, vC14Pub{id: int(vInt(it, "id")), c: c})
+					argsOf = append(argsOf, args)
+				}
+				intent(map[string]interface{}{"t": b.ID, "step": sn, "a": "PublishRaw", "args": argsOf[0], "burst": len(items)})
+				for j := range items {
+					if err := nc.Publish(stream, pubs[base+j].c.data); err != nil {
+						t.Fatalf("INCONCLUSIVE: nats publish: %v", err)
+					}
+				}
+				nc.Flush()
+				deadline := time.Now().Add(vC14Deadline)
+				for part.log.NewestOffset() < int64(len(pubs))-1 {
+					if time.Now().After(deadline) {
+						t.Fatalf("INCONCLUSIVE: a burst of %d messages was not stored within %v (stored %d, server running: %v)",
+							len(items), vC14Deadline, part.log.NewestOffset()+1-int64(base), srv.IsRunning())
+					}
+					time.Sleep(200 * time.Microsecond)
+				}
+				msgs, err := vC14ReadLog(part)
+				if err != nil {
+					t.Fatalf("INCONCLUSIVE: read log: %v", err)
+				}
+				for j := range items {
+					n := base + j + 1
+					if n > len(msgs) {
+						n = len(msgs)
+					}
+					stored, same := vC14Project(msgs[:n], pubs[:base+j+1], stream)
+					k2 := "none"
+					if len(stored) > 0 {
+						k2 = stored[len(stored)-1].K
+					}
+					emit(map[string]interface{}{"a": "PublishRaw", "t": b.ID, "args": argsOf[j],
+						"st":  map[string]interface{}{"up": srv.IsRunning(), "stored": stored},
+						"obs": map[string]interface{}{"a": "PublishRaw", "k": k2, "same": same}})
+				}
 			case "PublishRaw":
-				im := step["i"].(map[string]interface{})
-				k := vC14Key{Len: int(vInt(im, "len")), MagicOK: vBool(im, "magicOK"), VerOK: vBool(im, "verOK"),
-					CrcFlag: vBool(im, "crcFlag"), OtherFlags: vBool(im, "otherFlags"), TypeOK: vBool(im, "typeOK"),
-					CrcOK: vBool(im, "crcOK")}
-				hl, pbOK, id := int(vInt(im, "hl")), vBool(step, "pbOK"), int(vInt(step, "id"))
-				rng := vC14Rng(seed, k, hl, pbOK, id)
-				c := vC14Concretise(k, hl, pbOK, vStrDef(step, "shape", "plain"), rng)
+				c, args := vC14BuildPublish(step, seed)
+				id := int(vInt(step, "id"))
 				pubs = append(pubs, vC14Pub{id: id, c: c})
-				args := map[string]interface{}{"i": im, "pbOK": pbOK, "id": id}
-				intent(map[string]interface{}{"t": b.ID, "step": sn, "a": "PublishRaw", "args": args, "hex": fmt.Sprintf("%x", c.data)})
+				intent(map[string]interface{}{"t": b.ID, "step": sn, "a": "PublishRaw", "args": args, "hex": fmt.Sprintf("%.128x", c.data)})
 				if err := nc.Publish(stream, c.data); err != nil {
 					t.Fatalf("INCONCLUSIVE: nats publish: %v", err)
 				}
@@ -636,6 +739,15 @@ func TestVerifC14Server(t *testing.T) {
 				hl, pbOK, h, shape := int(vInt(im, "hl")), vBool(step, "pbOK"), vStr(step, "h"), int(vInt(step, "shape"))
 				subject, typ, tmpl := vC14Internal(srv, part, stream, h, shape)
 				c := vC14ConcretiseTyped(k, hl, pbOK, "plain", vC14Rng(seed, k, hl, pbOK, 1000+sn), typ, tmpl)
+				if num := vC14NumericShapes("c14x-" + stream); h == "propagate" && pbOK && shape >= 137 {
+					data, err := proto.MarshalPropagatedRequest(num[(shape-137)%len(num)])
+					if err != nil {
+						t.Fatalf("INCONCLUSIVE: %v", err)
+					}
+					c = vC14Concrete{data: data}
+					im = map[string]interface{}{"len": len(data), "magicOK": true, "verOK": true, "hl": 8, "crcFlag": false,
+						"otherFlags": false, "typeOK": true, "crcOK": true}
+				}
 				args := map[string]interface{}{"i": im, "pbOK": pbOK, "h": h, "shape": shape}
 				intent(map[string]interface{}{"t": b.ID, "step": sn, "a": "Internal", "args": args, "hex": fmt.Sprintf("%x", c.data),
 					"subject": subject})
